@@ -56,6 +56,10 @@ func init() {
 					}
 				}
 			}
+			// names containing the separator ':' (two different pairs must never be confused)
+			for _, shape := range []string{"x:y,x|z,y:z", "x,x:y|y:z,z", "x:y,x,x:y|z,y:z,z", "x:y,x|z,<kept>,y:z"} {
+				cases = append(cases, Case{ID: "reconcile " + shape, Pkg: "internal/interpreter", Fn: "ZZC07Reconcile", Args: []string{shape}, Tag: "Reconcile-unit"})
+			}
 			// API tier: the same pairing seen through whole scripts - kept shares spanning several
 			// sources, one cap variable on several clauses, and every variable used again afterwards
 			capv := map[string][2]string{"cap": {"monetary", "mon:USD"}}
